@@ -44,6 +44,8 @@ PLAIN = {
     OPT + '::copied': ('O', 'copied'),                   # Some(&v) -> Some(*v) ; None -> None
     OPT + '::zip': ('O', 'zip'),                         # (Some(a), Some(b)) -> Some((a, b)) ; otherwise None
 }
+BRANCH = {'<' + RES + ' as core::ops::try_trait::Try>::branch': 'R', '<' + OPT + ' as core::ops::try_trait::Try>::branch': 'O'}
+CF = 'core::ops::control_flow::ControlFlow'
 VIDX = {'Ok': 0, 'Err': 1, 'None': 0, 'Some': 1}
 ADT = {'Ok': RES, 'Err': RES, 'Some': OPT, 'None': OPT}
 
@@ -70,6 +72,12 @@ def desugar(crate, body):
     from .terms import Terms, norm
     T = None
     plans = []
+    npreds = {}
+    for bi_ in range(len(body.blocks)):
+        if body.blocks[bi_]['cleanup']:
+            continue
+        for s_ in body.succs(bi_, False):
+            npreds[s_] = npreds.get(s_, 0) + 1
     for bi, blk in enumerate(body.blocks):
         t = blk['term']
         if t['k'] != 'call' or blk['cleanup'] or t.get('target') is None:
@@ -100,6 +108,11 @@ def desugar(crate, body):
                 wrapped = True
             if f[0] == 'closure' and (not wrapped or t['args'][0].get('k') in ('copy', 'move')):
                 plans.append((bi, name, 'C', wrapped, 'catch'))
+            continue
+        if name in BRANCH and len(t['args']) == 1 and npreds is not None and npreds.get(bi, 0) >= 2:
+            # `x?` where x was just produced by a (desugared) combinator: the block is a merge point of the arms, make the
+            # Ok/Err split explicit so that each arm keeps its own continuation (jump threading does the rest)
+            plans.append((bi, name, BRANCH[name], None, 'branch'))
             continue
         if name in PLAIN:
             kind, how = PLAIN[name]
@@ -311,6 +324,16 @@ def desugar(crate, body):
                 b_no2 = finish([set_dest(_agg('None', []))])
                 b_ok = new_block([_assign(d2, {'k': 'discr', 'place': {'l': subj2, 'p': []}, 'ty': OPT + '<?>'}, at)],
                                  {'k': 'switch', 'discr': _mv(d2), 'discr_ty': 'isize', 'targets': [['0', b_no2], ['1', b_both]], 'otherwise': unreach, 'at': at}, frame)
+            elif how == 'branch':
+                def cf(variant, vidx, ops):
+                    return {'k': 'agg', 'ak': 'adt', 'path': CF, 'args': [], 'variant': variant, 'vidx': vidx, 'fields': ['0'], 'ops': ops}
+                r_ = new_local()
+                b_ok = finish([take, set_dest(cf('Continue', 0, [_mv(p)]))])
+                if kind == 'R':
+                    b_no = finish([_assign(p, {'k': 'use', 'op': _payload(subj, 'Err')}, at), _assign(r_, _agg('Err', [_mv(p)]), at),
+                                   set_dest(cf('Break', 1, [_mv(r_)]))])
+                else:
+                    b_no = finish([_assign(r_, _agg('None', []), at), set_dest(cf('Break', 1, [_mv(r_)]))])
             elif how == 'err':
                 b_ok = finish([set_dest(_agg('None', []))])
                 b_no = finish([_assign(p, {'k': 'use', 'op': _payload(subj, 'Err')}, at), set_dest(_agg('Some', [_mv(p)]))])
@@ -445,4 +468,9 @@ def _variant_ctor(crate, path):
             for i, v in enumerate(a['variants']):
                 if v['name'] == last:
                     return head, last, i
+        # the constructor function of a tuple struct (`.map_err(Refused)`)
+        a = c.adts.get(path)
+        if a and a['kind'] == 'Struct' and len(a['variants']) == 1 and a['variants'][0]['fields'] and \
+                all(str(f['name']).isdigit() for f in a['variants'][0]['fields']):
+            return path, a['variants'][0]['name'], 0
     return None
